@@ -151,14 +151,14 @@ func init() {
 			if !ok || ex == nil {
 				return fmt.Errorf("archive.go: %s not found", n)
 			}
-			pairs = append(pairs, [2]string{n, strings.Join(strings.Fields(stripComments(c.src("go/store/nbs/archive.go", ex))), " ")})
+			pairs = append(pairs, [2]string{n, strings.Join(strings.Fields(nbsStripComments(c.src("go/store/nbs/archive.go", ex))), " ")})
 		}
 		c.defStringPairs("archiveConsts", pairs)
 		return nil
 	})
 }
 
-func stripComments(s string) string {
+func nbsStripComments(s string) string {
 	var out []string
 	for _, l := range strings.Split(s, "\n") {
 		if i := strings.Index(l, "//"); i >= 0 {
